@@ -157,7 +157,7 @@ def kinds_menu(thorough):
     menu = []
     menu.append(("cat", lambda R, S: ({"HED": {"a": "Red", "b": "(Blue, Square)"}},
                                       {"kind": "categorical", "map": {"a": "Red", "b": "(Blue, Square)"}},
-                                      ["a", "b", "n/a", "zz"])))
+                                      ["a", "b", "n/a", "zz", "b "])))       # 'b ' is not the key 'b'
     # a categorical column one of whose levels is left unannotated (an empty string)
     menu.append(("catempty", lambda R, S: ({"HED": {"a": "Red", "rest": "", "b": "(Blue, {val})" if False else "(Blue, Square)"}},
                                            {"kind": "categorical", "map": {"a": "Red", "rest": "", "b": "(Blue, Square)"}},
